@@ -461,9 +461,8 @@ def mDiff : Str := "diff".toList
 def mRollback : Str := "rollback".toList
 def ios : Str := "ios".toList
 
-/-- the syntax `diff_command` hands to `Diff(...)`.  **As written the `-s` value is not passed**:
-the call is `Diff(open(f0).read(), open(f1).read())`, so the default `'ios'` applies. -/
-def diffSyntaxPassed (_a : DiffArgs) : Str := ios
+/-- the syntax `diff_command` hands to `Diff(...)`: the `-s` value (after the repair of F48). -/
+def diffSyntaxPassed (a : DiffArgs) : Str := a.syn
 
 /-- `diff_command` -/
 def diffCmd (A : Api) (a : DiffArgs) : Except Err (List Str) := do
